@@ -1,6 +1,7 @@
 """Utility methods"""
 import functools
 import hashlib
+import inspect
 import numbers
 import pathlib
 import warnings
@@ -35,13 +36,24 @@ class file_monitoring_lru_cache:
         self.cached_wrapper = None
 
     def __call__(self, func):
+        # name of the first argument of `func` (the path)
+        path_name = list(inspect.signature(func).parameters)[0]
+
         @self.lru_cache
         def cached_wrapper(path, path_stats, *args, **kwargs):
             assert path_stats, "We need stat for validating the cache"
             return func(path, *args, **kwargs)
 
         @functools.wraps(func)
-        def wrapper(path, *args, **kwargs):
+        def wrapper(*args, **kwargs):
+            # The path may be given as positional or as keyword argument.
+            if args:
+                path, args = args[0], args[1:]
+            elif path_name in kwargs:
+                path = kwargs.pop(path_name)
+            else:
+                # `func` will raise a TypeError
+                return func(*args, **kwargs)
             full_path = pathlib.Path(path).resolve()
             if full_path.exists():
                 path_stat = full_path.stat()
